@@ -783,6 +783,13 @@ func (e *Exec) evalCall(x ECall, env *Env) Val {
 		}
 		e.unsupported("fieldaddr: no field %s", fs.Val)
 		return Val{}
+	case "box":
+		// box(x): the interface value holding x (dynamic type = the static type of x)
+		v := arg(0)
+		if v.Ty == nil {
+			e.unsupported("box() of a value without a Go type")
+		}
+		return Val{T: e.box(v, v.Ty), S: SAny, Ty: types.NewInterfaceType(nil, nil)}
 	case "bkey48":
 		// bkey48(b): the [48]byte value obtained by copying the bytes b into a zeroed [48]byte
 		b := arg(0)
